@@ -79,12 +79,18 @@ theorem C02_full (sub : Nat → Nat → Bool) (n : Nat) (body : List Stmt) (w : 
     toCall (PS.bodyStmts Cfg.python sub n body w) = Py.callBody sub n body w :=
   C02_call_partial Cfg.python sub n body w (confL_python Cfg.python rfl rfl body) hs
 
-/-- **Today's code** (`Current.cfg`: loop-else repaired, `with` as coded): full agreement on programs with
-single-manager `with` statements whose `__enter__` does not raise. -/
-theorem C02_current_partial (sub : Nat → Nat → Bool) (n : Nat) (body : List Stmt) (w : World)
-    (hc : confL Current.cfg body = true) (hs : freeJumpL body = false) :
+/-- **Today's code** (`Current.cfg`: after the `fix:` commits both handlers have their Python shape): every function body
+that CPython's compiler accepts is executed exactly as Python executes it – no fragment hypothesis. -/
+theorem C02_current (sub : Nat → Nat → Bool) (n : Nat) (body : List Stmt) (w : World) (hs : freeJumpL body = false) :
     toCall (PS.bodyStmts Current.cfg sub n body w) = Py.callBody sub n body w :=
-  C02_call_partial Current.cfg sub n body w hc hs
+  C02_call_partial Current.cfg sub n body w (confL_python Current.cfg rfl rfl body) hs
+
+/-- the handlers as they were before the `fix:` commits: agreement only without a jump in a loop's `else` clause and
+with single-manager `with` statements whose `__enter__` does not raise -/
+theorem C02_prefix_partial (sub : Nat → Nat → Bool) (n : Nat) (body : List Stmt) (w : World)
+    (hc : confL Cfg.preFix body = true) (hs : freeJumpL body = false) :
+    toCall (PS.bodyStmts Cfg.preFix sub n body w) = Py.callBody sub n body w :=
+  C02_call_partial Cfg.preFix sub n body w hc hs
 
 /-- **No marker leaks.**  For accepted bodies a break/continue marker never reaches the function boundary. -/
 theorem C02_marker_inv (sub : Nat → Nat → Bool) (n : Nat) (body : List Stmt) (w : World)
@@ -104,7 +110,7 @@ theorem C02_marker_inv (sub : Nat → Nat → Bool) (n : Nat) (body : List Stmt)
     | ret v => simp
     | raise e => simp
 
-/-! ### witnesses of the deviations that exist today (each replayed on the real code by the check) -/
+/-! ### regression witnesses: the handler shapes removed by the `fix:` commits (`Cfg.preFix`) still deviate -/
 
 def eqSub : Nat → Nat → Bool := fun a b => a == b
 
@@ -116,24 +122,24 @@ theorem C02_regress_loop_else_break :
 /-- `with A, B: raise E` where B suppresses: Python's A sees no exception; pyscript hands the exception to both -/
 def cexWithSuppress : List Stmt :=
   [.with_ [{ id := 1 }, { id := 2, suppress := true }] [.raise 7 none], .tick 3]
-theorem C02_cex_with_inner_suppression :
-    (PS.bodyStmts Current.cfg eqSub 20 cexWithSuppress {}).2.log ≠ (Py.callBody eqSub 20 cexWithSuppress {}).2.log := by decide
+theorem C02_regress_with_inner_suppression :
+    (PS.bodyStmts Cfg.preFix eqSub 20 cexWithSuppress {}).2.log ≠ (Py.callBody eqSub 20 cexWithSuppress {}).2.log := by decide
 
 /-- `with A: …` where `A.__enter__` raises: Python does not call `__exit__`, pyscript does -/
 def cexWithEnter : List Stmt := [.with_ [{ id := 1, enterRaises := some 7 }] [.tick 1]]
-theorem C02_cex_with_failed_enter_exited :
-    (PS.bodyStmts Current.cfg eqSub 20 cexWithEnter {}).2.log ≠ (Py.callBody eqSub 20 cexWithEnter {}).2.log := by decide
+theorem C02_regress_with_failed_enter_exited :
+    (PS.bodyStmts Cfg.preFix eqSub 20 cexWithEnter {}).2.log ≠ (Py.callBody eqSub 20 cexWithEnter {}).2.log := by decide
 
 /-- `with A, B:` – pyscript evaluates both context expressions before entering A -/
 def cexWithOrder : List Stmt := [.with_ [{ id := 1 }, { id := 2 }] [.tick 1]]
-theorem C02_cex_with_two_managers_order :
-    (PS.bodyStmts Current.cfg eqSub 20 cexWithOrder {}).2.log ≠ (Py.callBody eqSub 20 cexWithOrder {}).2.log := by decide
+theorem C02_regress_with_two_managers_order :
+    (PS.bodyStmts Cfg.preFix eqSub 20 cexWithOrder {}).2.log ≠ (Py.callBody eqSub 20 cexWithOrder {}).2.log := by decide
 
 /-- non-vacuity: a program using every construct lies in today's fragment and is accepted -/
 def sample : List Stmt :=
   [.for_ 1 [.try_ [.ite 2 [.raise 5 (some 6)] [.cont], .tick 3] [.mk (some [5]) [.tick 4, .reraise], .mk none [.brk]]
               [.tick 5] [.tick 6, .assert_ 7]] [.tick 8],
    .with_ [{ id := 1, suppress := true }] [.while_ 9 [.ret 3] []], .ret 4]
-example : confL Current.cfg sample = true ∧ freeJumpL sample = false := by decide
+example : confL Cfg.preFix sample = true ∧ freeJumpL sample = false := by decide
 
 end PsModel.C02
